@@ -36,7 +36,7 @@ def prelude(conn):
     ]
 
 
-MSG_KINDS = {'1': ['motion', 'button', 'commit', 'create', 'destroy', 'orphan'], '2': ['motion', 'commit', 'orphan']}
+MSG_KINDS = {'1': ['motion', 'button', 'commit', 'create', 'destroy', 'orphan', 'appid'], '2': ['motion', 'commit', 'orphan']}
 
 
 def message_for(conn, kind, created):
@@ -53,6 +53,8 @@ def message_for(conn, kind, created):
     if kind == 'destroy':
         created.pop()
         return _u(conn, False, 'wl_display', 1, 'delete_id', [['int', 20]])
+    if kind == 'appid':       # connection A announces the app id "b": `connection B` must still mean the connection named B
+        return _u(conn, True, 'zz_q', 78, 'set_app_id', [['str', 'b']])
     if kind == 'orphan':      # a message on an id the log never showed being created (stays unresolved)
         return _u(conn, True, 'zz_q', 77, 'foo', [])
     raise ValueError(kind)
